@@ -48,7 +48,7 @@ def run(tier):
     M, F = common.Model(), common.Ref(); rng = R.rng
     envs = MI.env_grid(tier, rng); eenc = [MI.enc_env(e) for e in envs]; ienv = [MI.impl_env(e) for e in envs]
     mreq, midx = [], []
-    for _ in range(500 if tier == "quick" else 4000):      # thorough: 4000 pairs of up to 5 leaves (the extracted simplifier is the slow side)
+    for _ in range(500 if tier == "quick" else 2500):      # thorough: pairs of up to 5 leaves; the extracted simplifier is the slow side (4000 took more than 50 minutes)
         (sa, ka, fa), (sb, kb, fb) = K.gen_pair(rng, tier)
         a, bm = K.parse(sa), K.parse(sb)
         if a is None or bm is None: R.count("capped"); continue
